@@ -295,7 +295,7 @@ def place_ghost_at_anchors(sf, ed, spec, lo, hi, used):
                 tx = st[k].text
                 if tx in OPEN:
                     k = m[k]
-                    if st[k].text == '}' and st[k + 1].text not in (';', '.', '?', 'else'):
+                    if st[k].text == '}' and st[k + 1].text not in (';', '.', '?', 'else', '{'):
                         break
                     k += 1
                     continue
@@ -685,7 +685,7 @@ def emit_slice(spec, log, vacuity=False):
             tx = st[k].text
             if tx in OPEN:
                 k = m[k]
-                if st[k].text == '}' and st[k + 1].text not in (';', '.', '?', 'else'):
+                if st[k].text == '}' and st[k + 1].text not in (';', '.', '?', 'else', '{'):
                     break
                 k += 1
                 continue
